@@ -251,6 +251,10 @@ fn nontrivial(prop: Prop, res: &RunResult) -> bool {
     }
 }
 
+/// where each worker records the run it is about to start (so that a crash of the process —
+/// memory unsafety in the tree under test — can be traced to a run afterwards)
+pub static PROGRESS_DIR: std::sync::OnceLock<String> = std::sync::OnceLock::new();
+
 pub fn run_batch(
     prop: Prop,
     seed: u64,
@@ -265,10 +269,20 @@ pub fn run_batch(
     let end = first_run + runs;
     let halt = AtomicBool::new(false);
     let out = Mutex::new(BatchOut::default());
+    let wid = AtomicU64::new(0);
     std::thread::scope(|sc| {
         for _ in 0..threads.max(1) {
             sc.spawn(|| {
                 let mut local = BatchOut::default();
+                let my = wid.fetch_add(1, Ordering::Relaxed);
+                let mut progress = PROGRESS_DIR.get().and_then(|d| {
+                    std::fs::OpenOptions::new()
+                        .create(true)
+                        .write(true)
+                        .truncate(true)
+                        .open(format!("{}/worker-{}", d, my))
+                        .ok()
+                });
                 loop {
                     if halt.load(Ordering::Relaxed) {
                         break;
@@ -276,6 +290,11 @@ pub fn run_batch(
                     let i = next.fetch_add(1, Ordering::Relaxed);
                     if i >= end {
                         break;
+                    }
+                    if let Some(f) = progress.as_mut() {
+                        use std::io::{Seek, Write};
+                        let _ = f.seek(std::io::SeekFrom::Start(0));
+                        let _ = f.write_all(format!("{:020}\n", i).as_bytes());
                     }
                     let res = run_one(prop, seed, i, known);
                     local.runs += 1;
